@@ -250,6 +250,16 @@ def run_item(item, tier):
                          'int v = {a};', 'while ({a}) {{ break; }}', '!truth_is_defeat({a});', 'sleep({a});', 'x += {a};', 'return {a};'):
                 check_text(st, pre + 'empty nop2(int k) { } empty @is_you(int x) { try { ' + form.format(a=a) + ' } undo { } }', f'{form} with {a}')
                 check_text(st, pre + 'empty nop2(int k) { } empty @is_you(int x) { ' + form.format(a=a) + ' }', f'{form} with {a}')
+        # one base name in all three flavours, with overloads and several storage classes of an array parameter: labels stay distinct
+        same = ('const int[] CG = [1, 2];\nint[] MG = [3];\n'
+                'int f(int a) { return a + 1; } int f(const int[] a) { return a.length; } int f(int[] a, int b) { a[0] += b; return a[0]; }\n'
+                'int @f(int a) { return f(a) * 2; } int @f(const int[] a) { return f(a) + 10; }\n'
+                'int !f(int a) { !truth_is_defeat(a == 0); return a; } int !f(const int[] a) { !truth_is_defeat(a.length == 0); return a[0]; }\n'
+                'empty @is_you(int x) { int[] loc = [x, 5]; write(f(x)); write(f(CG)); write(f(loc)); write(f(MG)); write(f([x])); write(f(loc, 2)); write(f(MG, 1));\n'
+                'write(@f(x)); write(@f(CG)); write(@f(loc)); try { write(!f(x)); write(!f(loc)); write(!f(CG)); } undo { write(0); } }')
+        for W in (2, 3):
+            check_text(st, same, 'one base name in three flavours with overloads and storage classes', W=W)
+            check_text(st, same.replace('int @f(int a)', 'int @g(int a)'), 'one base name in two flavours', W=W)
         # undefined / misspelt calls in every flavour (the compiler offers hints for some of them)
         for name in ('print', 'println', 'printx', 'writ', 'write', 'writeln', 'sleep', 'is_defeat', 'truth_is_defeat', 'all_is_win', 'debug', 'length'):
             for fl in ('', '@', '!'):
